@@ -236,8 +236,13 @@ func (p *parser) parseFloat(n *yaml.Node) *Float {
 	}
 
 	f, err := strconv.ParseFloat(n.Value, 64)
-	if err != nil || math.IsNaN(f) {
+	if err != nil {
 		p.errorf(n, "invalid float value: %q: %s", n.Value, err.Error())
+		return nil
+	}
+	if math.IsNaN(f) {
+		// Note: err is nil in this case. strconv.ParseFloat parses "nan" successfully
+		p.errorf(n, "invalid float value: %q: NaN is not available", n.Value)
 		return nil
 	}
 
